@@ -1107,18 +1107,6 @@ package ion
 //@ ensures[C11] old(w.lst) == nil && old(w.lstb) != nil ==> err == nil && specFindOK(w.lstb, sym) && specFindID(w.lstb, sym) == result
 //@ ensures[C11] w.lst == old(w.lst) && w.lstb == old(w.lstb)
 
-//@ func writeEscapedString
-//@ modifies *
-
-//@ func writeEscapedChar
-//@ modifies *
-
-//@ func writeRawString
-//@ modifies *
-
-//@ func writeRawChar
-//@ modifies *
-
 //@ func writeSymbol
 //@ modifies *
 
@@ -1809,4 +1797,50 @@ package ion
 //@ modifies t.pos, t.buffer, vcStreamOf(t.in).cur, *ret
 //@ ensures[C01,C02] len(*ret) == old(len(*ret)) || len(*ret) == old(len(*ret))+1
 //@ ensures[C01,C02] forall k int :: 0 <= k && k < old(len(*ret)) ==> (*ret)[k] == old((*ret)[k])
+//@ safe[C06]
+
+// ---------------------------------------------------------------------------
+// textutils.go: what the text writer escapes is what the tokenizer's escape decoding reads
+// back (C01, C02): every byte of a string is written exactly once and in order, raw when it
+// is printable and not the delimiter or the backslash, otherwise as the two-character
+// escape of the table or as \xHH with the two hexadecimal digits of the byte.
+
+//@ func writeRawString
+//@ modifies *
+//@ func writeRawChar
+//@ modifies *
+//@ func writeRawChars
+//@ modifies *
+
+//@ func writeEscapedChar
+//@ split returns
+//@ modifies *
+//@ atcall[C01,C02] writeRawString specEscapeLetter(c) != 0 && len(vcAsString(a0)) == 2 && vcAsString(a0)[0] == 92 && vcAsString(a0)[1] == specEscapeLetter(c)
+//@ atcall[C01,C02] writeRawChars specEscapeLetter(c) == 0 && len(a0) == 4 && a0[0] == 92 && a0[1] == 'x' && specHexDigit(a0[2]) == int(c>>4) && specHexDigit(a0[3]) == int(c&0xF)
+//@ safe[C06]
+
+//@ lemma[C01,C02] escapeLetterRoundTrip [c byte] specEscapeLetter(c) != 0 ==> specSimpleEscape(specEscapeLetter(c)) == rune(c)
+//@ lemma[C01,C02] escapeLetterOnlyForTable [c byte] specEscapeLetter(c) == 0 ==> c != 0 && c != 92 && c != '"' && c != 39 && (c < 7 || c > 13)
+//@ lemma[C01,C02] hexPairRoundTrip [c byte] uint32(c>>4)<<4|uint32(c&0xF) == uint32(c)
+
+//@ func writeEscapedString
+//@ split returns
+//@ modifies *
+//@ counts writeEscapedChar
+//@ counts writeRawChar
+//@ invariant[C01,C02] loop0 [i int] 0 <= i && i <= len(str) && vcCalls("writeEscapedChar")+vcCalls("writeRawChar") == i
+//@ atcall[C01,C02] writeEscapedChar [i int] 0 <= i && i < len(str) && a0 == str[i] && (str[i] < 32 || str[i] == 92 || str[i] == '"')
+//@ atcall[C01,C02] writeRawChar [i int] 0 <= i && i < len(str) && a0 == str[i] && str[i] >= 32 && str[i] != 92 && str[i] != '"'
+//@ ensures[C01,C02] err == nil ==> vcCalls("writeEscapedChar")+vcCalls("writeRawChar") == len(str)
+//@ safe[C06]
+
+//@ func writeEscapedSymbol
+//@ split returns
+//@ modifies *
+//@ counts writeEscapedChar
+//@ counts writeRawChar
+//@ invariant[C01,C02] loop0 [i int] 0 <= i && i <= len(sym) && vcCalls("writeEscapedChar")+vcCalls("writeRawChar") == i
+//@ atcall[C01,C02] writeEscapedChar [i int] 0 <= i && i < len(sym) && a0 == sym[i] && (sym[i] < 32 || sym[i] == 92 || sym[i] == 39)
+//@ atcall[C01,C02] writeRawChar [i int] 0 <= i && i < len(sym) && a0 == sym[i] && sym[i] >= 32 && sym[i] != 92 && sym[i] != 39
+//@ ensures[C01,C02] err == nil ==> vcCalls("writeEscapedChar")+vcCalls("writeRawChar") == len(sym)
 //@ safe[C06]
